@@ -231,10 +231,14 @@ def name_tables(tabs):
 
 
 def kwline(line):
-    """AUTOUGH2 keyword line (EEEEE / CCCCC / GGGGG from column 2): its letter, else None"""
-    s = line[1:6]
-    if len(s) == 5 and s[0] in 'ECG' and s == s[0] * 5:
-        return s[0]
+    """AUTOUGH2 keyword line from column 2: 'E', 'C', 'G' (EEEEE / CCCCC / GGGGG: full results) or
+    'ESHORT', 'CSHORT', 'GSHORT' (short output), else None"""
+    s = line[1:7]
+    if len(s) >= 5 and s[0] in 'ECG':
+        if s[:5] == s[0] * 5:
+            return s[0]
+        if s == s[0] + 'SHORT':
+            return s
     return None
 
 
@@ -245,6 +249,7 @@ class Scan:
         self.lines = split_lines(data)
         self.block_start = []            # first line of each full result block (for truncation)
         self.blocks = []
+        self.outputs = []                # AUTOUGH2: every output in file order: dict(short=bool, tabs={name: Tab}, line=)
         if family == 'AUTOUGH2':
             self._autough2()
         else:
@@ -262,6 +267,7 @@ class Scan:
         lines = self.lines
         names = {'E': 'element', 'C': 'connection', 'G': 'generation'}
         i, n = 0, len(lines)
+        first_short = None
         while i < n:
             c = kwline(lines[i])
             if not c:
@@ -274,15 +280,23 @@ class Scan:
             if k >= n:
                 break
             tabs = scan_region(lines, j + 1, k)
+            short = len(c) > 1
+            if short and first_short is None:
+                first_short = c
             if c == 'E':
                 self.blocks.append([])
                 self.block_start.append(i)
-            if tabs and self.blocks:
+                self.outputs.append(dict(short=False, tabs={}, line=i))
+            elif short and c == first_short:
+                self.outputs.append(dict(short=True, tabs={}, line=i))
+            if tabs and self.outputs and self.outputs[-1]['short'] == short:
                 t = tabs[0]
                 for t2 in tabs[1:]:
                     t.rows += t2.rows
-                t.name = names[c]
-                self.blocks[-1].append(t)
+                t.name = names[c[0]]
+                self.outputs[-1]['tabs'][t.name] = t
+                if not short:
+                    self.blocks[-1].append(t)
             i = k + 1
 
     def tokens(self):
